@@ -347,6 +347,17 @@ def integration_pa_bounded_instance(prop='C14'):
             # log-densities whose level differs by thousands of nats between the frames of one bin (cACG densities do)
             spat = spat + rng.uniform(-3000, 3000, size=(F, 1, T))
         spec = rng.normal(size=(F, K, T)) * 2.0
+        if (inp['seed'] // 3) % 3 == 0:
+            # a class with zero likelihood at some points (log-density -inf: a hard-limited or masked stream); the criterion of every
+            # pairing is then 0 * -inf there and the documented fallback is the identity pairing
+            hit = rng.rand(F, K, T) < 0.08
+            hit[:, 0, :] = False
+            hit[0, 1, 0] = True
+            (spat if inp['seed'] % 2 else spec)[hit] = -np.inf
+        with np.errstate(all='ignore'):
+            return _ipa_call(mmu, w, spat, spec, F)
+
+    def _ipa_call(mmu, w, spat, spec, F):
         out = mmu.log_pdf_to_affiliation_for_integration_models_with_inline_pa(w, spat, spec)
         alone = np.concatenate([mmu.log_pdf_to_affiliation_for_integration_models_with_inline_pa(w[f:f + 1], spat[f:f + 1], spec[f:f + 1]) for f in range(F)])
         return {'out': np.asarray(out), 'alone': np.asarray(alone), 'w': w, 'spat': spat, 'spec': spec}
@@ -363,12 +374,14 @@ def integration_pa_bounded_instance(prop='C14'):
             crit = {}
             for p in itertools.permutations(range(K)):
                 joint = a[f, list(p)] + b[f]
-                post_u = np.exp(joint - logsumexp(joint, axis=0, keepdims=True))
-                crit[p] = float(np.sum(post_u * joint))
+                with np.errstate(all='ignore'):
+                    post_u = np.exp(joint - logsumexp(joint, axis=0, keepdims=True))
+                    crit[p] = float(np.sum(np.where(post_u > 0, post_u * joint, 0.0)))         # (p log p -> 0)
             for p in itertools.permutations(range(K)):
                 joint = a[f, list(p)] + b[f]
-                lw = np.log(w[f]) + joint
-                post = np.exp(lw - logsumexp(lw, axis=0, keepdims=True))
+                with np.errstate(all='ignore'):
+                    lw = np.log(w[f]) + joint
+                    post = np.exp(lw - logsumexp(lw, axis=0, keepdims=True))
                 if np.allclose(g[f], post, rtol=1e-7, atol=1e-10) and crit[p] >= crit[tuple(range(K))] - 1e-9 * max(1.0, abs(crit[p])):
                     found = True
             ok &= found
